@@ -16,6 +16,8 @@ From Omega Require Import L7Codegen.Pred L7Codegen.PredFacts L7Codegen.Synth
   L7Codegen.DagProofs L7Codegen.Step L7Codegen.StepProofs
   L7Codegen.Render L7Codegen.RenderProofs.
 From OmegaGen Require Import C13_tables.
+From OmegaGen Require Import CodegenGen.
+From OmegaGP Require Import CodegenBridge.
 
 (* (1) int_bits_roundtrip: for every type hint (Boolean, unsigned, signed,
    all-negative; any lo, hi) and every value representable in the bits of the
@@ -264,6 +266,168 @@ Example C13_refuted_neg_old_code :
      (firstn 3 (int_to_bits_old (-3) (width_of (-3) 3)))) = 1%Z.
 Proof. exact int_to_bits_old_refuted. Qed.
 
+(* ------------------------------------------------------------------ tie T
+   codegen.py is TRANSLATED from the current source on every run
+   (tools/py2coq_codegen.py -> gen/CodegenGen.v) and
+   GenProofs/CodegenBridge.v proves the generated terms equal to the models
+   the theorems above talk about.
+
+   int_to_bits: the generated function (bin / lstrip / zfill / reversed /
+   bool(int(.)) on character strings) returns the model's list of bits, for
+   all x and width (Leibniz). *)
+Theorem C13_int_to_bits_is_translated_code : forall x width,
+  cg_int_to_bits x width = Some (int_to_bits x width).
+Proof. exact int_to_bits_is_translated_code. Qed.
+
+(* the round trip (1) for the bits the TRANSLATED int_to_bits returns *)
+Theorem C13_translated_int_bits_roundtrip : forall lo hi z bits,
+  representable (TInt lo hi) (VZ z) ->
+  cg_int_to_bits z (width_of lo hi) = Some bits ->
+  decode (TInt lo hi) (firstn (nbits (TInt lo hi)) bits) = VZ z.
+Proof.
+  intros lo hi z bits R E. rewrite int_to_bits_is_translated_code in E.
+  injection E as <-. exact (int_bits_roundtrip (TInt lo hi) (VZ z) R).
+Qed.
+
+(* The emitter: _latch_name, _latch_ref, _register_nodes, _collect_layers,
+   _comment_level, _dumps_node, _dumps_layer, _append_sep and
+   dumps_bdd_as_code.  A text is the list of its tokens as Render.v cuts a
+   text; the literal text of the f-strings is cut by the translator with the
+   same rules.  The BDD manager is read through int(u), u.var, u.negated,
+   node.low/high, bdd.succ: here the accessors of the DAG [d] (the general
+   statement, for any accessors that agree with d and any renaming, is
+   CodegenBridge.dumps_bdd_as_code_is_translated_code).
+   For a language of the extracted table whose operator tokens are not
+   empty, a well-formed DAG whose nodes test named bits, roots of the DAG,
+   and provided no code line begins with or contains the comment token
+   (code_ok: otherwise _append_sep takes the line for a comment or raises),
+   the translated dumps_bdd_as_code, run with one unit of fuel more than
+   there are levels, returns exactly the token list Render.render lays out
+   for the program of Dag.dumps_bdd_as_code. *)
+Theorem C13_emitter_is_translated_code :
+  forall lang sy, lang_syntax lang languages = Some sy ->
+  tokens_nonempty sy = true ->
+  forall d names outname nlev roots,
+  dag_names_ok d names = true ->
+  wf_dag d nlev = true ->
+  (forall r, In r roots -> root_ok_p d nlev (snd r)) ->
+  forallb (code_ok names sy outname) (dumps_bdd_as_code nlev d roots) = true ->
+  cg_dumps_bdd_as_code (dag_term d) (dag_neg d) (dag_low d) (dag_high d)
+    (dag_var d names) (dag_succ d) (S nlev)
+    (map (root_name outname) roots) lang None =
+  Some (render sy names outname (dumps_bdd_as_code nlev d roots)).
+Proof. exact emitter_is_translated_code. Qed.
+
+(* with (5): evaluating the text the TRANSLATED emitter returns gives every
+   root the value of the BDD *)
+Theorem C13_translated_text_evaluates_bdd :
+  forall lang sy, lang_syntax lang languages = Some sy ->
+  tokens_nonempty sy = true -> syntax_ok sy = true ->
+  forall d names outname nlev roots a text,
+  names_ok sy names = true -> dag_names_ok d names = true ->
+  wf_dag d nlev = true -> dag_bits_ok (List.length names) d = true ->
+  (forall r, In r roots -> root_ok_p d nlev (snd r)) ->
+  cg_dumps_bdd_as_code (dag_term d) (dag_neg d) (dag_low d) (dag_high d)
+    (dag_var d names) (dag_succ d) (S nlev)
+    (map (root_name outname) roots) lang None = Some text ->
+  forallb (code_ok names sy outname) (dumps_bdd_as_code nlev d roots) = true ->
+  run_text sy names a text =
+  Some (map (fun r => (out_word (outname (fst r)),
+                       ref_val (S nlev) d a (snd r))) roots).
+Proof. exact translated_text_evaluates_bdd. Qed.
+
+(* the pieces, each for any accessors [ref_*] / [bdd_succ] that agree with
+   the DAG: see CodegenBridge.latch_name_is_translated_code,
+   latch_ref_is_translated_code, register_nodes_is_translated_code,
+   collect_layers_is_translated_code, dumps_node_is_translated_code,
+   dumps_layer_is_translated_code, append_sep_is_translated_code *)
+
+(* bitvector.twos_complement_to_int (copied into the generated file):
+   IndexError on the empty list, else the model's value *)
+Theorem C13_twos_complement_is_translated_code : forall bits,
+  bv_twos_complement_to_int bits =
+  match bits with [] => None | _ => Some (twos_complement_to_int bits) end.
+Proof. exact twos_complement_is_translated_code. Qed.
+
+(* _list_bits and assign_bitvectors, for the table of a layout: variable x
+   is called [vname x], the bit at position p [bname p]; the names of the
+   variables are pairwise distinct and the bit of a Boolean variable carries
+   the variable's name.  _list_bits lists the names of Step.list_bits;
+   assign_bitvectors maps every variable of the state to the bits
+   Bits.encode gives for its value (a Boolean variable to its one bit). *)
+Theorem C13_list_bits_is_translated_code :
+  forall (vname : nat -> string) (bname : var -> string) (ly : layout),
+  (forall x y, x < List.length ly -> y < List.length ly ->
+     vname x = vname y -> x = y) ->
+  (forall x, x < List.length ly -> var_type ly x = TBool ->
+     map bname (var_bits ly x) = [vname x]) ->
+  forall out_vars, (forall x, In x out_vars -> x < List.length ly) ->
+  cg_list_bits (map vname out_vars) (table_of vname bname ly) =
+  Some (map bname (list_bits ly out_vars)).
+Proof. exact list_bits_is_translated_code. Qed.
+
+Theorem C13_assign_bitvectors_is_translated_code :
+  forall (vname : nat -> string) (bname : var -> string) (ly : layout),
+  (forall x y, x < List.length ly -> y < List.length ly ->
+     vname x = vname y -> x = y) ->
+  forall state : list (nat * Bits.val),
+  NoDup (map fst state) ->
+  (forall x v, In (x, v) state -> x < List.length ly /\
+     List.length (var_bits ly x) = nbits (var_type ly x)) ->
+  cg_assign_bitvectors (map (fun xv => (vname (fst xv), snd xv)) state)
+    (table_of vname bname ly) =
+  Some (map (fun xv => (vname (fst xv),
+                        match var_type ly (fst xv) with
+                        | TBool => BVbool (hd false (encode TBool (snd xv)))
+                        | TInt lo hi => BVlist (encode (TInt lo hi) (snd xv))
+                        end)) state).
+Proof.
+  intros vname bname ly Hinj state Hnd Hst.
+  exact (assign_bitvectors_is_translated_code vname bname ly Hinj state Hnd Hst).
+Qed.
+
+(* the side condition on the table holds for every extracted language; by
+   computation over the generated table *)
+Theorem C13_translated_tables_ok_bounded :
+  forallb (fun l => match syntax_of (snd l) with
+                    | Some sy => tokens_nonempty sy
+                    | None => false
+                    end) languages = true.
+Proof. vm_compute. reflexivity. Qed.
+
+(* non-vacuity: the DAG with a complemented edge of the examples above, in
+   both extracted syntaxes; the translated code is evaluated *)
+Example C13_translated_instance :
+  exists syc syp,
+    lang_syntax "c" languages = Some syc /\
+    lang_syntax "python" languages = Some syp /\
+    tokens_nonempty syc = true /\ tokens_nonempty syp = true /\
+    dag_names_ok ex_dag (bnames 2) = true /\
+    forallb (code_ok (bnames 2) syc oname)
+      (dumps_bdd_as_code 2 ex_dag [(0, (-5)%Z); (1, 5%Z)]) = true /\
+    forallb (code_ok (bnames 2) syp oname)
+      (dumps_bdd_as_code 2 ex_dag [(0, (-5)%Z); (1, 5%Z)]) = true /\
+    cg_dumps_bdd_as_code (dag_term ex_dag) (dag_neg ex_dag) (dag_low ex_dag)
+      (dag_high ex_dag) (dag_var ex_dag (bnames 2)) (dag_succ ex_dag) 3
+      (map (root_name oname) [(0, (-5)%Z); (1, 5%Z)]) "c" None
+    = Some ex_c_text /\
+    cg_dumps_bdd_as_code (dag_term ex_dag) (dag_neg ex_dag) (dag_low ex_dag)
+      (dag_high ex_dag) (dag_var ex_dag (bnames 2)) (dag_succ ex_dag) 3
+      (map (root_name oname) [(0, (-5)%Z); (1, 5%Z)]) "python" None
+    = Some (render syp (bnames 2) oname
+              (dumps_bdd_as_code 2 ex_dag [(0, (-5)%Z); (1, 5%Z)])) /\
+    cg_int_to_bits (-3) 3 = Some [true; false; true] /\
+    bv_twos_complement_to_int [true; false; true; true] = Some (-3)%Z /\
+    cg_list_bits ["y"; "b"]%string
+      (table_of (fun x => nth x ["x"; "y"; "b"]%string ""%string)
+                (fun p => nth p ["x_0"; "x_1"; "y_0"; "y_1"; "b"]%string ""%string)
+                [(TInt 0 3, [0; 1]); (TInt 0 3, [2; 3]); (TBool, [4])])
+    = Some ["y_0"; "y_1"; "b"]%string.
+Proof.
+  eexists. eexists. split; [vm_compute; reflexivity|].
+  split; [vm_compute; reflexivity|]. repeat split; vm_compute; reflexivity.
+Qed.
+
 Print Assumptions C13_int_bits_roundtrip.
 Print Assumptions C13_straightline_correct.
 Print Assumptions C13_latches_assigned_once.
@@ -274,3 +438,11 @@ Print Assumptions C13_rendered_text_evaluates_program.
 Print Assumptions C13_rendered_text_evaluates_bdd.
 Print Assumptions C13_rendered_text_tables_ok_bounded.
 Print Assumptions C13_rendered_text_evaluates_extracted.
+Print Assumptions C13_int_to_bits_is_translated_code.
+Print Assumptions C13_translated_int_bits_roundtrip.
+Print Assumptions C13_emitter_is_translated_code.
+Print Assumptions C13_translated_text_evaluates_bdd.
+Print Assumptions C13_translated_tables_ok_bounded.
+Print Assumptions C13_twos_complement_is_translated_code.
+Print Assumptions C13_list_bits_is_translated_code.
+Print Assumptions C13_assign_bitvectors_is_translated_code.
